@@ -1,6 +1,7 @@
 package main
 
 import (
+	"math"
 	"context"
 	"encoding/json"
 	"fmt"
@@ -109,6 +110,9 @@ func runC03(e *emitter, tier string, seed uint64) {
 		for _, p := range params {
 			if je, ok := p.(templ.JSExpression); ok {
 				enc += "e" + hx(string(je)) + ";"
+			} else if _, jerr := json.Marshal(p); jerr != nil {
+				// a value encoding/json cannot encode contributes nothing (an empty argument): to the model it is an empty expression
+				enc += "e;"
 			} else {
 				enc += "v" + encJ(p)
 			}
@@ -235,6 +239,24 @@ func runC03(e *emitter, tier string, seed uint64) {
 		for j := range ps {
 			if r.chance(1, 6) {
 				ps[j] = templ.JSExpression(r.pick([]string{"event", "this", "1+1", "a\"b", "x<y"}))
+			} else if r.chance(1, 8) {
+				// values encoding/json refuses, carrying an adversarial string
+				a := r.pick(adversarial)
+				switch r.intn(5) {
+				case 0:
+					ps[j] = struct {
+						S string
+						F float64
+					}{a, math.NaN()}
+				case 1:
+					ps[j] = map[string]any{"k": a, "c": make(chan int)}
+				case 2:
+					ps[j] = []any{a, math.Inf(1)}
+				case 3:
+					ps[j] = c03BadJSON(a)
+				default:
+					ps[j] = map[bool]string{true: a}
+				}
 			} else {
 				ps[j] = c03RandVal(r, append(adversarial, s), 2)
 			}
@@ -307,3 +329,8 @@ func c03Typed(e *emitter, s string) {
 		e.emit(k, "scv", name, hx(s), hx(in), hx(out))
 	}
 }
+
+// c03BadJSON is a string whose MarshalJSON fails.
+type c03BadJSON string
+
+func (c c03BadJSON) MarshalJSON() ([]byte, error) { return nil, fmt.Errorf("cannot encode %q", string(c)) }
